@@ -113,6 +113,13 @@ def pre_fr(code: int, head: bool, cl: Optional[str], ti: int, nb: int, maxb: int
              "Content-Length values longer than LCL chars, Transfer-Encoding spellings outside the pool (the case-insensitive comparison on a free 7-char string costs 0.5 s/solver query)", "TLS / real sockets"],
 )
 def h_client_framing(code: int, head: bool, cl: Optional[str], ti: int, nb: int, maxb: int, interim: int):
+    _run_framing(code, head, [] if cl is None else [cl], False, ti, nb, maxb, interim)
+
+
+def _run_framing(code, head, clvals, joined, ti, nb, maxb, interim):
+    """Shared body of h_client_framing / h_client_framing3.  clvals = Content-Length field values, added on
+    separate header lines through the real HTTPHeaders.add, or (joined) as one comma-separated field."""
+    cl = None if not clvals else ",".join(clvals)      # what a reader sees: the combined field value
     with install() as env:
         te = None if ti == 0 else _TE_POOL[ti - 1]      # Transfer-Encoding value by symbolic index (0 = absent)
         chunked_wire = te is not None and te.lower() == "chunked"
@@ -133,8 +140,11 @@ def h_client_framing(code: int, head: bool, cl: Optional[str], ti: int, nb: int,
             stream.blocks.append((httputil.ResponseStartLine("HTTP/1.1", 100, "Continue"), ih))
         fh = httputil.HTTPHeaders()
         try:
-            if cl is not None:
-                fh.add("Content-Length", cl)
+            if joined:
+                fh.add("Content-Length", ", ".join(clvals))
+            else:
+                for v in clvals:
+                    fh.add("Content-Length", v)
             if te is not None:
                 fh.add("Transfer-Encoding", te)
         except httputil.HTTPInputError:
@@ -168,9 +178,14 @@ def h_client_framing(code: int, head: bool, cl: Optional[str], ti: int, nb: int,
                 if want is None:
                     reached("truncated")
         elif cl is not None:
+            # RFC 9112 6.3 rule 5: every list element (over all field lines) must be the same 1*DIGIT
             pieces = [p.strip(" \t") for p in cl.split(",")]
+            if len(pieces) >= 3:
+                reached("three_or_more_lengths")
             if not all(_digits(p) and p == pieces[0] for p in pieces):
                 want = None
+                if len(pieces) >= 3 and _digits(pieces[0]) and pieces[0] == pieces[-1]:
+                    reached("middle_differs_rejected")
             else:
                 n = int(pieces[0])
                 if code == 204:
@@ -187,6 +202,12 @@ def h_client_framing(code: int, head: bool, cl: Optional[str], ti: int, nb: int,
         else:
             want = BODY[:nb]            # close-delimited
         got = b"".join(e[1] for e in rec.events if e[0] == "d")
+        if want is not None and cl is not None and te is None and not (head or code == 304) \
+                and any(p != p.rstrip(" \t") for p in cl.split(",")):
+            # OWS *before* a comma / at the end of the value: RFC 9110 5.6.1 lets a recipient accept it, a strict
+            # reader may refuse it - either outcome is within the statement; only the limit is checked
+            assert len(got) <= maxb
+            return
         # ---- the limit holds in every case
         assert len(got) <= maxb, "delivered %d body bytes with max_body_size=%d" % (len(got), maxb)
         if want is None:
@@ -213,6 +234,45 @@ def h_client_framing(code: int, head: bool, cl: Optional[str], ti: int, nb: int,
             reached("fixed_body_ok")
         else:
             reached("until_close_ok")
+
+
+_CL3_POOL = ("0", "1", "2", "x", "", ",")     # one Content-Length value (<= 1 char), chosen by symbolic index
+
+
+def pre_fr3(code: int, c1: int, c2: int, c3: int, joined: bool, nb: int, maxb: int) -> bool:
+    n = len(_CL3_POOL)
+    if not (0 <= c3 <= n and in_shard(c3) and 0 <= c1 < n and 0 <= c2 <= n):
+        return False
+    if c2 == 0 and c3 == 0:
+        return False                 # single value: h_client_framing
+    return 200 <= code <= 599 and 0 <= nb <= P.NB and 0 <= maxb <= P.MB
+
+
+@harness(
+    pre=pre_fr3,
+    quick=dict(NB=2, MB=2, timeout=300, reach_timeout=120),
+    thorough=dict(NB=3, MB=3, timeout=1500, reach_timeout=200),
+    nshards=dict(quick=7, thorough=7),
+    reach=["three_or_more_lengths", "middle_differs_rejected", "fixed_body_ok"],
+    units=["http1connection.HTTP1Connection._read_message", "http1connection.HTTP1Connection._read_body",
+           "http1connection.HTTP1Connection._read_fixed_body", "http1connection.parse_int",
+           "httputil.HTTPHeaders.add", "httputil.HTTPHeaders.__getitem__"],
+    stubs=["as h_client_framing (pre-parsed header blocks, FakeStream, concrete body prefix)",
+           "two or three Content-Length values v1, v2?, v3? - each chosen by symbolic index from the pool "
+           "('0','1','2','x','',','), v2/v3 optional - either on separate header lines (real HTTPHeaders.add per "
+           "value) or joined into one field with ', '; status code, bytes before EOF and max_body_size symbolic; "
+           "GET request, no Transfer-Encoding, no interim response (those dimensions: h_client_framing). "
+           "(Free symbolic 1-char strings cost 0.85 s/path here because tornado's '%r' error message realises them.)"],
+    outside=["more than three field lines (a ',' value yields up to 4 list elements)", "digits above 2 (bodies are "
+             "at most NB bytes)", "values longer than one character in this harness"],
+)
+def h_client_framing3(code: int, c1: int, c2: int, c3: int, joined: bool, nb: int, maxb: int):
+    vals = [_CL3_POOL[c1]]
+    if c2 != 0:
+        vals.append(_CL3_POOL[c2 - 1])
+    if c3 != 0:
+        vals.append(_CL3_POOL[c3 - 1])
+    _run_framing(code, False, vals, joined, 0, nb, maxb, 0)
 
 
 # =================================================================================================
